@@ -298,10 +298,25 @@ impl Bundle for AppMarker {
     type Error = jxl_bitstream::Error;
 
     fn parse(bitstream: &mut Bitstream, _: ()) -> Result<Self, Self::Error> {
-        Ok(Self {
-            ty: bitstream.read_u32(0, 1, 2 + U(1), 4 + U(2))?,
-            length: bitstream.read_bits(16)? + 1,
-        })
+        let ty = bitstream.read_u32(0, 1, 2 + U(1), 4 + U(2))?;
+        let length = bitstream.read_bits(16)? + 1;
+
+        // ICC, Exif and XMP markers are re-created from a fixed prefix plus metadata taken from
+        // the image; a marker shorter than its prefix cannot be valid.
+        let min_length = match ty {
+            1 => 5 + HEADER_ICC.len(),
+            2 => 3 + HEADER_EXIF.len(),
+            3 => 3 + HEADER_XMP.len(),
+            _ => 0,
+        };
+        if (length as usize) < min_length {
+            tracing::error!(ty, length, min_length, "APP marker is too short");
+            return Err(jxl_bitstream::Error::ValidationFailed(
+                "APP marker is too short",
+            ));
+        }
+
+        Ok(Self { ty, length })
     }
 }
 
